@@ -321,6 +321,9 @@ impl Mp4Track {
         if self.trak.mdia.minf.stbl.stco.is_none() && self.trak.mdia.minf.stbl.co64.is_none() {
             return Err(Error::InvalidData("must have either stco or co64 boxes"));
         }
+        if chunk_id == 0 {
+            return Err(Error::InvalidData("chunk ids start at 1"));
+        }
         if let Some(ref stco) = self.trak.mdia.minf.stbl.stco {
             if let Some(offset) = stco.entries.get(chunk_id as usize - 1) {
                 return Ok(*offset as u64);
